@@ -4,6 +4,7 @@
 // callbacks that record what they see.  All objects have static storage: their addresses are link-time constants.
 #include <yaclib/algo/detail/base_core.hpp>
 #include "vp.h"
+#include <atomic>
 #include <new>
 
 using namespace yaclib::detail;
@@ -26,9 +27,12 @@ struct KCallback final : InlineCore {
   InlineCore* Here(InlineCore& caller) noexcept final {
     auto& c = static_cast<KCore&>(static_cast<BaseCore&>(caller));
     ++called;
+    vp_hb_read(0);   // C04: the Result is read here
     intact = PayloadIs(c, g_v);
+    signalled.store(1, std::memory_order_release);   // as the real event: Set() happens under the event's mutex
     return nullptr;
   }
+  std::atomic<unsigned> signalled{0};
   unsigned called = 0;
   bool intact = false;
 };
@@ -51,12 +55,14 @@ extern "C" void c01k_prologue() {
 // Promise::Set / ~Promise : Store(result); Loop(core, core->SetResult<false>())
 extern "C" void c01k_producer() {
   CORE.payload[0] = g_v; CORE.payload[1] = ~g_v; CORE.payload[2] = g_v ^ 0x5555;
+  vp_hb_write(0);  // C04: the Result (and everything the producer did before) is written here
   Loop(&CORE, CORE.SetResult());
 }
 
 static void Bystander() {  // FutureBase::Ready() / Get() const& : Ready()==true implies the Result can be read
   if (!CORE.Empty()) {
     g_ready_seen = true;
+    vp_hb_read(0);
     g_ready_ok = PayloadIs(CORE, g_v);
   }
 }
@@ -89,9 +95,10 @@ extern "C" void c01k_consumer_wait() {
         return;
       }
     }
-    vp_assume(EV.called != 0);  // block until signalled (the real code blocks on a mutex/condvar event here)
+    vp_assume(EV.signalled.load(std::memory_order_acquire) != 0);  // block until signalled (the real code blocks on a mutex/condvar event: Wait() returns under the same mutex)
   }
   g_wait_done = true;
+  vp_hb_read(0);
   vp_assert(!CORE.Empty(), "C01 Wait returned but Ready() is false");
   vp_assert(PayloadIs(CORE, g_v), "C01 Wait/Get returned before the Result could be read intact");
 }
